@@ -194,6 +194,19 @@ impl<R: Read> Read for Counting<R> {
     fn read(&mut self, buf: &mut [u8]) -> io::Result<usize> { let n = self.inner.read(buf)?; self.count += n; Ok(n) }
 }
 
+/// A reader that hands out at most `chunk` bytes per call (a legal `Read`: pipes, sockets and buffered readers do this).
+pub struct Chunked<R: Read> { pub inner: R, pub chunk: usize }
+impl<R: Read> Read for Chunked<R> {
+    fn read(&mut self, buf: &mut [u8]) -> io::Result<usize> { let n = buf.len().min(self.chunk); self.inner.read(&mut buf[..n]) }
+}
+
+/// A writer that accepts at most `chunk` bytes per call (a legal `Write`).
+pub struct ChunkedSink { pub data: Vec<u8>, pub chunk: usize }
+impl Write for ChunkedSink {
+    fn write(&mut self, buf: &[u8]) -> io::Result<usize> { let n = buf.len().min(self.chunk); self.data.extend_from_slice(&buf[..n]); Ok(n) }
+    fn flush(&mut self) -> io::Result<()> { Ok(()) }
+}
+
 /// A sink that accepts at most `budget` bytes and then fails.
 pub struct Budget { pub budget: usize, pub written: usize }
 impl Write for Budget {
@@ -256,6 +269,20 @@ pub fn replay_stream(case: &Value, tally: &mut Tally, via_file: bool) {
         let mut rest = Vec::new();
         let _ = counting.read_to_end(&mut rest);
         out.push((vals.len(), "nothing left in the stream after loading every structure", json!(0), json!(rest.len())));
+        // readers and writers that transfer a few bytes per call: the same bytes, the same values, the same consumption
+        for chunk in [1usize, 3, 5] {
+            let mut sink = ChunkedSink { data: Vec::new(), chunk };
+            let wrote = vals.iter().all(|v| v.serialize(&mut sink).is_ok());
+            out.push((0, "serialize through a writer that accepts a few bytes per call: same bytes", json!(true), json!(wrote && sink.data == buf)));
+            let mut rd = Counting { inner: Chunked { inner: std::io::Cursor::new(&buf), chunk }, count: 0 };
+            for (k, v) in vals.iter().enumerate() {
+                let before = rd.count;
+                match v.load_same(&mut rd) {
+                    Ok(copy) => out.push((k, "load through a reader that returns a few bytes per call: value and bytes consumed", json!([true, 8 * v.size_in_elements()]), json!([copy == *v, rd.count - before]))),
+                    Err(e) => { out.push((k, "load through a reader that returns a few bytes per call", json!("ok"), json!(e.to_string()))); break; },
+                }
+            }
+        }
         if let Some(p) = path.filter(|p| { if vals.is_empty() { let _ = std::fs::remove_file(p); } !vals.is_empty() }) {
             // serialize_to over an existing, longer file: the file is exactly the serialization afterwards; load_from reads it back
             let v = &vals[0];
